@@ -36,7 +36,7 @@ ASSUMPTIONS = [
     "atoms at distinct positions at least 0.05 bohr apart; points whose floating-point coordinate spacing is at least 64x below the smallest internuclear distance (|p| up to 1e12 bohr); beyond that nothing is decided (recorded as observation)",
     "atnums are int64 NumPy arrays of elements 1..86; the segment table covers all points (0 .. N, non-decreasing, empty segments allowed)",
     "Hirshfeld reference share = natural cubic spline of the shipped (r, dn) tables, own second-derivative/Thomas implementation in long double, tolerance in units of the float64 conditioning of that spline",
-    "rigid-motion equality is decided per value against 32x a first-order float64 forward-error model of w=P_A/sum P (cancellation eps/s in the cell functions + eps|coords|/R_AB in the distances; uses the documented radii and formula only as conditioning floor) and only where that bound is below 1e-6",
+    "rigid-motion equality is decided per value against 64x a first-order float64 forward-error model of w=P_A/sum P (cancellation eps/s in the cell functions + eps|coords|/R_AB in the distances; uses the documented radii and formula only as conditioning floor) and only where that bound is below 1e-6",
     "cell-monotone (weight of A non-increasing from nucleus A to nucleus B in a diatomic) is a consequence of the |a|<=1/2 clipping named in the mechanism; it is not in the literal statement",
 ]
 LEVEL_TEXT = "Held on every executed call of the five public functions over the seeded molecule/point families listed in the rule; not a proof for unvisited geometries."
@@ -49,7 +49,7 @@ TOL_SUM = 1e-12
 TOL_ROUTE = 1e-13
 TOL_RELABEL = 1e-13
 TOL_MONO = 1e-13
-RIGID_SAFETY = 16.0  # multiple of the first-order float64 error model allowed between two frames
+RIGID_SAFETY = 32.0  # multiple of the first-order float64 error model allowed between two frames
 HIRSH_ELEMS = [1, 6, 7, 8]
 
 
